@@ -502,7 +502,7 @@ def daughter_unit(g, name, depth, units, nested, pyth_ok):
     stick out of the boundary (implicitly truncated by the placement), background or covering material."""
     rng = g.rng
     if nested:
-        b = simple_boundary(g, 6, 7)
+        b = simple_boundary(g, 5, 6)
     else:
         r = rng.random()
         if r < 0.75:
@@ -531,6 +531,11 @@ def daughter_unit(g, name, depth, units, nested, pyth_ok):
         fill_unit(g, nu, [], g.ri(1, 2), 1, 1, False, pyth_ok)
         t = g.tf(0, False, force_rot=rng.random() < 0.6)
         t["t"] = [g.ri(-1, 1) for _ in range(3)]
+        while rb(nb) + norm2(t["t"]) >= inner_extent(b):      # keep the nested daughter strictly inside
+            t["t"][g.ri(0, 2)] = 0
+            if t["t"] == [0, 0, 0] and rb(nb) >= inner_extent(b):
+                nb.clear()
+                nb.update({"k": "sphere", "r": 2})
         u["daughters"].append({"unit": sub, "tf": t})
         claimed.append(Placed(u, place(nb, t), t["t"], rb(nb)))
     fill_unit(g, u, claimed, g.ri(1, 3), depth, 3, False, pyth_ok)
@@ -552,7 +557,7 @@ def random_scene(seed, sid, grid_n=9, depth=3):
         idx = daughter_unit(g, "d%d" % di, max(1, depth - 1), units, di == 0 and rng.random() < 0.4, t["den"] == 1)
         rad = rb(units[idx]["boundary"])
         for attempt in range(60):
-            c = [g.ri(-8, 8) for _ in range(3)]
+            c = [g.ri(-6, 6) for _ in range(3)]
             if all(math.dist(c, q.c) > rad + q.r + 1 for q in claimed):
                 break
         else:
@@ -562,21 +567,30 @@ def random_scene(seed, sid, grid_n=9, depth=3):
         daughters.append({"unit": idx, "tf": t})
         claimed.append(Placed(u0, place(units[idx]["boundary"], t), c, rad))
     need = max([norm2(q.c) + q.r + 1 for q in claimed] + [0])
-    size = max(g.ri(11, 15), need)
+    size = max(g.ri(8, 11), need)
     b = simple_boundary(g, size, size + 2)
     g.count("boundary:" + b["k"])
     u0["boundary"] = b
     u0["objs"][0] = b
-    fill_unit(g, u0, claimed, g.ri(1, 6) if daughters else g.ri(2, 6), depth, size - 4, True)
-    return finish_scene(g, sid, seed, "random", units, grid_n)
+    fill_unit(g, u0, claimed, g.ri(1, 6) if daughters else g.ri(2, 6), depth, size - 3, True)
+    balls = [(q.c, q.r) for q in claimed]
+    if daughters and rng.random() < 0.6:   # concentrate the probes on the daughters' neighbourhood
+        balls = [(q.c, q.r + 2) for q in claimed[:len(daughters)]]
+    return finish_scene(g, sid, seed, "random", units, grid_n, balls)
 
 
-def finish_scene(g, sid, seed, family, units, grid_n, margin=2):
-    ext = outer_extent(units[0]["boundary"]) + 1
-    step = max(1, -(-2 * ext // (grid_n - 1)))
-    lo = [-step * (grid_n - 1) // 2 + g.ri(-(step // 2), step // 2) for _ in range(3)]
+def finish_scene(g, sid, seed, family, units, grid_n, balls, margin=2):
+    # the grid starts just inside the boundary's bounding box and ends just outside it
+    b = units[0]["boundary"]
+    ext3 = {"box": lambda: list(b["h"]), "sphere": lambda: [b["r"]] * 3, "cyl": lambda: [b["r"], b["r"], b["hh"]],
+            "prism4": lambda: [b["a"], b["a"], b["hh"]]}[b["k"]]()
+    # ... restricted to the bounding box of the placed objects' balls (where things happen)
+    lo3 = [max(-ext3[i] - 1, min(c[i] - r for c, r in balls)) for i in range(3)]
+    hi3 = [min(ext3[i] + 1, max(c[i] + r for c, r in balls)) for i in range(3)]
+    step = [max(1, (hi3[i] - lo3[i]) // (grid_n - 1)) for i in range(3)]      # per axis; the grid stays inside
+    lo = [lo3[i] + g.ri(0, max(0, (hi3[i] - lo3[i]) - step[i] * (grid_n - 1))) for i in range(3)]
     scale = SCALE
-    assert all(max(abs(x), abs(x + step * (grid_n - 1))) + 1 < scale // 2 for x in lo), (lo, step)
+    assert all(max(abs(lo[i]), abs(lo[i] + step[i] * (grid_n - 1))) + 1 < scale // 2 for i in range(3)), (lo, step)
     return {"id": sid, "seed": seed, "family": family,
             "tolrel": 8, "length": 1, "margin": margin, "scale": scale, "tolinv": 10 ** 8 // (margin * scale),
             "grid": {"lo": lo, "step": step, "n": grid_n, "off": [int(g.rng.random() < 0.85) for _ in range(3)]},
@@ -653,7 +667,10 @@ def adjacent_scene(seed, sid, grid_n=9):
     b = {"k": "box", "h": [size, size, size]}
     units[0] = {"name": "u0", "boundary": b, "bz": "exterior", "bg": "u0.bg", "objs": [b], "daughters": daughters,
                 "materials": mats}
-    return finish_scene(g, sid, seed, "adjacent:" + mode, units, grid_n)
+    balls = [(m["obj"]["t"]["t"], rb(m["obj"]["c"])) for m in mats]
+    if daughters:
+        balls.append((daughters[0]["tf"]["t"], rb(units[1]["boundary"])))
+    return finish_scene(g, sid, seed, "adjacent:" + mode, units, grid_n, balls)
 
 
 # ------------------------------------------------------------------ second pass: perturbation
